@@ -33,6 +33,8 @@ CHECKS = {
             "Bounded as C07.", "z3; spec encodings", "5/C08"),
     "C15": (TV, "captured MinGenSet/MinSetCover LPs vs direct z3 definitions: LP_k <=> Spec_k for every k, certified minimum, returned solution validated; legal tolerance-perturbed solver answers injected at the highspy boundary",
             "Bounded: <= 4 numbers from <= 3 generators in 1..5, multiplicity <= 3; universes <= 5, <= 5 subsets.", "z3; plain brute-force validity checker for returned generating sets", "5/C15"),
+    "C16": (TV, "certified optimum of the captured phase-1 LP == optimum of the direct z3 definition (non-negative conserving flow minimising scaled L1 change); phase-2 LP: z3 shows every answer stays within the (1+eps) budget; returned graph evaluated",
+            "Bounded: DAGs <= 4 (5) nodes, digraphs <= 3 inner nodes, weights 0..4.", "z3; spec encoding in c16.spec", "5/C16"),
     "C13": (MC, "CrossHair symbolic execution of the real search loops / abstract solve() over a symbolic outcome sequence (status per solver invocation, clock increments), plus status injection at the highspy boundary into the real classes",
             "Bounded: <= 5 solver invocations, 5-status alphabet; 'Confirmed over all paths' per harness with reachability twin.", "CrossHair/z3; k-model stubs validated by injected runs on the real classes", "5/C13"),
     "C14": (MC, "CrossHair symbolic execution of the real get_solution_walks/_reconstruct_eulerian_walk with a symbolic multiplicity per edge of enumerated universe graphs",
